@@ -366,3 +366,97 @@ func (p *Poly) commonFactor() ([]int, *Poly) {
 	}
 	return common, rest
 }
+
+// ---- exact division (used to split off factors known to be non-zero on the path)
+
+// monoLess is the graded-lexicographic term order on monomials given as sorted id lists
+// (variables ordered by id, smaller id = greater variable).
+func monoLess(a, b []int) bool {
+	if len(a) != len(b) {
+		return len(a) < len(b)
+	}
+	for i := range a {
+		if a[i] != b[i] {
+			return a[i] > b[i]
+		}
+	}
+	return false
+}
+
+// leadMono returns the greatest monomial of p (nil for a constant or zero polynomial).
+func (p *Poly) leadMono() []int {
+	var best []int
+	first := true
+	for m := range p.t {
+		vs := monoVars(m)
+		if first || monoLess(best, vs) {
+			best, first = vs, false
+		}
+	}
+	return best
+}
+
+// monoDiv returns a / b for sorted multisets, or false if b does not divide a.
+func monoDiv(a, b []int) ([]int, bool) {
+	out := make([]int, 0, len(a))
+	j := 0
+	for _, v := range a {
+		if j < len(b) && b[j] == v {
+			j++
+			continue
+		}
+		if j < len(b) && b[j] < v {
+			return nil, false
+		}
+		out = append(out, v)
+	}
+	if j != len(b) {
+		return nil, false
+	}
+	return out, true
+}
+
+func (p *Poly) degree() int {
+	d := 0
+	for m := range p.t {
+		if m == "" {
+			continue
+		}
+		if n := strings.Count(m, monoSep) + 1; n > d {
+			d = n
+		}
+	}
+	return d
+}
+
+// divExact returns p / a when a divides p exactly in GF(q)[x…] (division algorithm with a single
+// divisor under a term order: the remainder is zero iff a | p).
+func (p *Poly) divExact(a *Poly, q *big.Int) (*Poly, bool) {
+	la := a.leadMono()
+	if len(a.t) == 0 || len(p.t) < 1 {
+		return nil, false
+	}
+	ca := a.t[monoOf(append([]int{}, la...))]
+	caInv := new(big.Int).ModInverse(ca, q)
+	if caInv == nil {
+		return nil, false
+	}
+	rem := p
+	quo := &Poly{t: map[string]*big.Int{}}
+	for steps := 0; len(rem.t) > 0; steps++ {
+		if steps > 4096 {
+			return nil, false
+		}
+		lr := rem.leadMono()
+		d, ok := monoDiv(lr, la)
+		if !ok {
+			return nil, false
+		}
+		c := new(big.Int).Mul(rem.t[monoOf(append([]int{}, lr...))], caInv)
+		c.Mod(c, q)
+		term := &Poly{t: map[string]*big.Int{monoOf(d): c}}
+		quo = quo.add(term, q)
+		rem = rem.sub(term.mul(a, q), q)
+	}
+	return quo, true
+}
